@@ -63,6 +63,10 @@ def main():
             elif op["op"] == "swap":
                 if op["v"] not in codes:
                     codes[op["v"]] = define(op["v"], 0).__code__
+                elif kind == "main":
+                    # one script path for every version: the text on disk must be the one the swapped-in code object was
+                    # compiled from (source look-up goes through the file), as when the user edits the script and reloads
+                    source_file(op["v"], 0)
                 objs[op["i"]][0].__code__ = codes[op["v"]]
             elif op["op"] == "call":
                 before = os.path.getsize(log) if os.path.exists(log) else 0
